@@ -381,9 +381,20 @@ func CheckC14(v *View, st Stats) []Violation {
 	if !v.Active() || v.Monotonic || v.Deleting {
 		return nil
 	}
-	if v.AnyErr || v.R.Err != nil || v.R.Crash || v.R.Panic != nil {
+	// "absent API errors": a reconcile in which no API call failed is held to the rule even if it
+	// returned an error of its own making
+	if v.AnyErr || v.R.Crash || v.R.Panic != nil {
 		st.Inc("parallel_reconciles_skipped_api_error")
 		return nil
+	}
+	// a set that the API already shows as gone, re-created or being deleted is not to be scaled
+	// (the uncached confirmation before an adoption reveals it and stops the reconcile)
+	if api, _ := v.R.Before.Get(simapi.Sets, v.Set.Namespace, v.Set.Name).(*asv1.StatefulSet); api == nil || api.UID != v.Set.UID || api.DeletionTimestamp != nil {
+		st.Inc("parallel_reconciles_skipped_set_gone_in_api")
+		return nil
+	}
+	if v.R.Err != nil {
+		st.Inc("parallel_reconciles_failed_without_api_error")
 	}
 	st.Inc("parallel_reconciles_checked")
 	created := map[int]bool{}
